@@ -491,3 +491,185 @@ Proof.
   split; [exact (ci_pending _ _ CI' _ _ _ _ _ Hc' Kc' O)|].
   destruct (is_failed eev') eqn:Fe; [|left; reflexivity]. destruct (L2 eq_refl) as [H|H]; [rewrite cbcount_nil in H; lia|right; exact H].
 Qed.
+
+(* ------------------------------------------------------------------------------------------------ *)
+(* the value of a condition: the processed leaves of its operand tree, left to right *)
+
+Inductive leaves (evs : list event) : list evid -> list (evid * val) -> Prop :=
+| lv_nil : leaves evs [] []
+| lv_cond o oev all ops n t inner rest :
+    nth_error evs o = Some oev -> kind oev = KCond all ops n -> leaves evs ops inner -> leaves evs t rest ->
+    leaves evs (o :: t) (inner ++ rest)
+| lv_done o oev t v rest :
+    nth_error evs o = Some oev -> is_cond oev = false -> cbs oev = None -> raw_value oev = Some v -> leaves evs t rest ->
+    leaves evs (o :: t) ((o, v) :: rest)
+| lv_pending o oev t l rest :
+    nth_error evs o = Some oev -> is_cond oev = false -> cbs oev = Some l -> leaves evs t rest ->
+    leaves evs (o :: t) rest.
+
+Lemma populate_sound fuel : forall evs ops items, populate fuel evs ops = Some items -> leaves evs ops items.
+Proof.
+  induction fuel as [|f IH]; intros evs ops items; cbn [populate]; [discriminate|].
+  revert items. induction ops as [|o t IHo]; intros items; cbn [populate_ops].
+  - intros H; injection H as <-. constructor.
+  - destruct (nth_error evs o) as [oev|] eqn:E; [|discriminate].
+    destruct (kind oev) eqn:K;
+      try (destruct (cbs oev) as [l|] eqn:C;
+           [intros H; eapply lv_pending; [exact E|unfold is_cond; rewrite K; reflexivity|exact C|apply IHo, H]
+           |destruct (raw_value oev) as [v|] eqn:RV; [|discriminate];
+            destruct (populate_ops (populate f evs) evs t) as [rest|] eqn:Rt; [|discriminate];
+            intros H; injection H as <-; eapply lv_done; [exact E|unfold is_cond; rewrite K; reflexivity|exact C|exact RV|apply IHo; reflexivity]]).
+    destruct (populate f evs ops) as [inner|] eqn:Ri; [|discriminate].
+    destruct (populate_ops (populate f evs) evs t) as [rest|] eqn:Rt; [|discriminate].
+    intros H; injection H as <-. eapply lv_cond; [exact E|exact K|apply IH, Ri|apply IHo; reflexivity].
+Qed.
+
+Definition ev_agree (a b : option event) : Prop :=
+  match a, b with
+  | Some x, Some y => kind y = kind x /\ (cbs x = None <-> cbs y = None) /\ raw_value y = raw_value x
+  | None, None => True
+  | _, _ => False
+  end.
+
+Lemma leaves_ext evs evs' bound :
+  (forall o, (o < bound)%nat -> ev_agree (nth_error evs o) (nth_error evs' o)) ->
+  (forall o oev all ops n x, (o < bound)%nat -> nth_error evs o = Some oev -> kind oev = KCond all ops n -> In x ops -> (x < bound)%nat) ->
+  forall ops items, (forall x, In x ops -> (x < bound)%nat) -> leaves evs ops items -> leaves evs' ops items.
+Proof.
+  intros Ag Cl ops items Hb H. induction H as [|o oev all ops n t inner rest E K Hi IHi Ht IHt|o oev t v rest E K C RV Ht IHt|o oev t l rest E K C Ht IHt].
+  - constructor.
+  - assert (Lo : (o < bound)%nat) by (apply Hb; left; reflexivity).
+    pose proof (Ag o Lo) as A. rewrite E in A. destruct (nth_error evs' o) as [oev'|] eqn:E'; [|contradiction].
+    destruct A as (K' & _ & _). eapply lv_cond; [exact E'|rewrite K'; exact K| |].
+    + apply IHi. intros x Hx. eapply Cl; eassumption.
+    + apply IHt. intros x Hx. apply Hb. right. exact Hx.
+  - assert (Lo : (o < bound)%nat) by (apply Hb; left; reflexivity).
+    pose proof (Ag o Lo) as A. rewrite E in A. destruct (nth_error evs' o) as [oev'|] eqn:E'; [|contradiction].
+    destruct A as (K' & C' & R'). eapply lv_done; [exact E'|unfold is_cond in *; rewrite K'; exact K|apply C', C|rewrite R'; exact RV|].
+    apply IHt. intros x Hx. apply Hb. right. exact Hx.
+  - assert (Lo : (o < bound)%nat) by (apply Hb; left; reflexivity).
+    pose proof (Ag o Lo) as A. rewrite E in A. destruct (nth_error evs' o) as [oev'|] eqn:E'; [|contradiction].
+    destruct A as (K' & C' & R'). destruct (cbs oev') as [l'|] eqn:Cb'.
+    + eapply lv_pending; [exact E'|unfold is_cond in *; rewrite K'; exact K|exact Cb'|].
+      apply IHt. intros x Hx. apply Hb. right. exact Hx.
+    + destruct C' as [_ C']. specialize (C' eq_refl). congruence.
+Qed.
+
+(* the value is a function of the state *)
+Lemma leaves_fun evs ops items : leaves evs ops items -> forall items', leaves evs ops items' -> items = items'.
+Proof.
+  intros H. induction H as [|o oev all ops n t inner rest E K Hi IHi Ht IHt|o oev t v rest E K C RV Ht IHt|o oev t l rest E K C Ht IHt];
+    intros items' H'.
+  - inversion H'. reflexivity.
+  - inversion H' as [|o' oev' all' ops' n' t' inner' rest' E' K' Hi' Ht'|o' oev' t' v' rest' E' K' C' RV' Ht'|o' oev' t' l' rest' E' K' C' Ht']; subst;
+      rewrite E in E'; injection E' as <-.
+    + rewrite K in K'. injection K' as <- <- <-. rewrite (IHi _ Hi'), (IHt _ Ht'). reflexivity.
+    + unfold is_cond in K'. rewrite K in K'. discriminate.
+    + unfold is_cond in K'. rewrite K in K'. discriminate.
+  - inversion H' as [|o' oev' all' ops' n' t' inner' rest' E' K' Hi' Ht'|o' oev' t' v' rest' E' K' C' RV' Ht'|o' oev' t' l' rest' E' K' C' Ht']; subst;
+      rewrite E in E'; injection E' as <-.
+    + unfold is_cond in K. rewrite K' in K. discriminate.
+    + rewrite RV in RV'. injection RV' as <-. rewrite (IHt _ Ht'). reflexivity.
+    + congruence.
+  - inversion H' as [|o' oev' all' ops' n' t' inner' rest' E' K' Hi' Ht'|o' oev' t' v' rest' E' K' C' RV' Ht'|o' oev' t' l' rest' E' K' C' Ht']; subst;
+      rewrite E in E'; injection E' as <-.
+    + unfold is_cond in K. rewrite K' in K. discriminate.
+    + congruence.
+    + apply IHt, Ht'.
+Qed.
+
+(* once built, the value stays: the rest of the callback loop of c does not touch it *)
+Section ValueStays.
+  Variables (c : evid) (o0 : outcome).
+
+  Definition VQ (X : list evid) (l : list cb) (s : state) : Prop :=
+    cbcount (CbBuild c) l = 0%nat /\ exists cev, get_event c s = Some cev /\ out cev = Some o0 /\ is_cond cev = true.
+
+  Lemma VQ_i X l X' s s1 : winv X l c s -> iptrace X' s s1 -> VQ X l s -> VQ (X ++ X') l s1.
+  Proof.
+    intros _ T (Cn & cev & Hc & Oc & Kc). split; [exact Cn|]. clear Cn. revert cev Hc Oc Kc.
+    induction T as [|x X' s s1 s2 P T IH]; intros cev Hc Oc Kc; [exists cev; auto|].
+    destruct (proj1 (iprim_keeps _ _ _ P) _ _ Hc) as (ev1 & H1 & K1 & _ & _ & O1).
+    apply (IH ev1 H1).
+    - destruct O1 as [O1|[(O1 & _)|(q & O1)]]; [congruence|congruence|]. unfold is_cond in Kc. rewrite O1 in Kc. discriminate.
+    - unfold is_cond in *. rewrite K1. exact Kc.
+  Qed.
+
+  Lemma VQ_check X c0 l s : winv X (CbCheck c0 :: l) c s -> VQ X (CbCheck c0 :: l) s -> VQ X l (cond_check c0 c s).
+  Proof.
+    intros _ (Cn & cev & Hc & Oc & Kc). split; [rewrite cbcount_cons in Cn; exact Cn|].
+    destruct (Nat.eq_dec c0 c) as [->|N].
+    - rewrite cond_check_noop by (right; right; exists cev; split; [exact Hc|left; congruence]). exists cev. auto.
+    - destruct (cond_check_frame c0 c s c) as [H|(_ & oev & Ho & _ & H)]; [congruence| |].
+      + exists cev. rewrite H. auto.
+      + rewrite Hc in Ho. injection Ho as <-. exists (ev_set_defused cev). rewrite H. cbn. auto.
+  Qed.
+
+  Lemma VQ_build X l s : winv X (CbBuild c :: l) c s -> VQ X (CbBuild c :: l) s -> VQ X l (fst (cond_build c s)).
+  Proof. intros _ (Cn & _). rewrite cbcount_cons, cb_eqb_refl in Cn. discriminate. Qed.
+
+  Lemma VQ_drop X cb l s : (forall c0, cb <> CbCheck c0) -> (forall c0, cb <> CbBuild c0) -> winv X (cb :: l) c s -> VQ X (cb :: l) s -> VQ X l s.
+  Proof.
+    intros _ N _ (Cn & H). split; [|exact H]. rewrite cbcount_cons in Cn.
+    destruct (cb_eqb (CbBuild c) cb) eqn:E; [apply cb_eqb_eq in E; exfalso; apply (N c); auto|exact Cn].
+  Qed.
+End ValueStays.
+
+(* C05, the value: in the completed step that processes the condition c (operands ops, triggered with success),
+   _build_value runs first and sets the value to the processed leaves of the operand tree AT THAT MOMENT (the state
+   in which c is popped), in left-to-right order, nested conditions flattened; the value is still that at the end of
+   the step *)
+Theorem cond_value_exact codes X fuel s s' c cev all ops n v0 :
+  creach codes X s -> clean_step fuel codes s s' c ->
+  get_event c s = Some cev -> kind cev = KCond all ops n -> ops <> [] -> out cev = Some (Ok v0) ->
+  exists items cev', leaves (events s) ops items /\ get_event c s' = Some cev' /\ out cev' = Some (Ok (VCond items)).
+Proof.
+  intros CR CS Hc Kc Ne Oc.
+  pose proof (creach_reach _ _ _ CR) as R. pose proof (reach_cinv _ _ _ R) as CI. pose proof (reach_procs_wf _ _ _ R) as PW.
+  destruct CS as (m & rest & ev & l & Pm & E & He & Cl & L). rewrite Hc in He. injection He as <-.
+  pose proof (ci_build_head _ _ CI _ _ _ _ _ _ Hc Kc Cl Ne) as Hin.
+  destruct (ci_build _ _ CI _ _ _ _ Hc Cl Hin) as (_ & Hd & Cn).
+  destruct l as [|cb0 l']; [destruct Hin|]. cbn in Hd. injection Hd as ->.
+  set (sp := popped m rest s) in *.
+  assert (Gp : forall x, get_event x sp = if Nat.eqb x c then Some (ev_set_cbs None cev) else get_event x s).
+  { intros x. unfold sp, popped. rewrite <- E. rewrite get_upd. change (get_event x (pop_state m rest s)) with (get_event x s).
+    destruct (Nat.eqb x c) eqn:Ex; [|reflexivity]. apply Nat.eqb_eq in Ex. subst x. rewrite Hc. reflexivity. }
+  assert (Wp : winv X (CbBuild c :: l') c sp).
+  { split; [apply cinv_popped; assumption|]. split; [eapply prim_procs_wf; [apply p_pop, Pm|exact PW]|].
+    split; [exists (ev_set_cbs None cev); split; [rewrite Gp, Nat.eqb_refl; reflexivity|reflexivity]|].
+    eapply wl_grows; [eapply prim_grows, p_pop, Pm|]. split.
+    - intros c0 Hin0. destruct (ci_check _ _ CI _ _ _ _ Hc Cl Hin0) as (cev0 & a0 & ops0 & n0 & H0 & K0 & Le).
+      exists cev0, a0, ops0, n0. split; [exact H0|]. split; [exact K0|]. apply occ_in. apply cbcount_in in Hin0. lia.
+    - intros c0 Hin0. exact (proj1 (ci_build _ _ CI _ _ _ _ Hc Cl Hin0)). }
+  (* the first callback is _build_value *)
+  assert (First : exists s1, run_cb fuel codes c (CbBuild c) sp = (s1, ROk) /\ cbloop codes fuel c l' s1 s').
+  { inversion L as [|c1 t1 sa s1 sb R1 L1|]; subst. exists s1. auto. }
+  destruct First as (s1 & R1 & L1).
+  destruct (run_cb_winv codes fuel X (CbBuild c) l' c sp s1 ROk Wp R1) as (X1 & _ & W1 & _).
+  cbn [run_cb] in R1. unfold cond_build in R1.
+  destruct (remove_checks (S c) c sp) as [sr|] eqn:RM; [|discriminate].
+  pose proof (rmsteps_rmrel _ _ _ (remove_checks_rm _ _ _ _ RM)) as RR.
+  assert (Hcr : exists cevr, get_event c sr = Some cevr /\ kind cevr = KCond all ops n /\ out cevr = Some (Ok v0)).
+  { pose proof (RR c) as Rc. rewrite Gp, Nat.eqb_refl in Rc. destruct (get_event c sr) as [cevr|]; [|contradiction].
+    destruct Rc as (K & O & _). exists cevr. cbn in K, O. split; [reflexivity|]. split; congruence. }
+  destruct Hcr as (cevr & Hcr & Kcr & Ocr). rewrite Hcr, Ocr, Kcr in R1.
+  destruct (populate (S c) (events sr) ops) as [items|] eqn:PO; [|discriminate]. injection R1 as <-.
+  assert (Lv : leaves (events s) ops items).
+  { apply populate_sound in PO. eapply (leaves_ext (events sr) (events s) c); [| | |exact PO].
+    - intros o Lo. pose proof (RR o) as Ro. rewrite Gp in Ro. assert (Eo : Nat.eqb o c = false) by (apply Nat.eqb_neq; lia). rewrite Eo in Ro.
+      unfold ev_agree. unfold get_event in Ro. destruct (nth_error (events s) o) as [x|], (nth_error (events sr) o) as [y|]; try contradiction; auto.
+      destruct Ro as (K & O & _ & C & _). split; [congruence|]. split; [tauto|]. unfold raw_value. rewrite O. reflexivity.
+    - intros o oev a ops0 n0 x Lo Eo Ko Ix.
+      pose proof (RR o) as Ro. rewrite Gp in Ro. assert (Eo' : Nat.eqb o c = false) by (apply Nat.eqb_neq; lia). rewrite Eo' in Ro.
+      unfold get_event in Ro. rewrite Eo in Ro. destruct (nth_error (events s) o) as [x0|] eqn:E0; [|contradiction].
+      destruct Ro as (K & _). pose proof (ci_older _ _ CI o x0 a ops0 n0 E0 ltac:(congruence) _ Ix). lia.
+    - intros x Ix. eapply ci_older; eassumption. }
+  set (o1 := Ok (VCond items)).
+  assert (Q1 : VQ c o1 (X ++ X1) l' (upd_event c (ev_set_out (Some o1)) sr)).
+  { split.
+    - rewrite cbcount_cons, cb_eqb_refl in Cn. lia.
+    - exists (ev_set_out (Some o1) cevr). split; [apply get_upd_same, Hcr|]. split; [reflexivity|]. unfold is_cond. cbn. rewrite Kcr. reflexivity. }
+  destruct (loop_all codes fuel c (VQ c o1) (VQ_i c o1) (VQ_check c o1) (VQ_build c o1) (VQ_drop c o1) l' _ s' L1 _ W1 Q1)
+    as (X2 & _ & (_ & cev' & Hc' & Oc' & _)).
+  exists items, cev'. auto.
+Qed.
